@@ -1,6 +1,7 @@
 #!/bin/bash
 # usage: tools/try_mutant.sh <patch.diff> <tier> <check ids...> : apply a seeded change to /repo, run the checks, undo
 P=$1; T=$2; shift 2
+if [ -n "$(git -C /repo status --short | grep -v '_build/')" ]; then echo "/repo has uncommitted changes: commit them first (the undo step is git checkout -- .)"; exit 2; fi
 cd /repo && git apply --check $P || { echo "patch does not apply"; exit 2; }
 git -C /repo apply $P
 for c in "$@"; do
